@@ -255,7 +255,7 @@ def mutate_node(rng, l, T, tg):
     if m == "range-reversed":
         a, b = l[1], l[2]
         if a == b:
-            a, b = a + 3, a
+            a, b = (a + 3, a) if a + 3 <= 2 ** 64 - 1 else (a, a - 3)    # bounds are u64 in the Rust type
         else:
             a, b = b, a
         return ("range", a, b, l[3]), m
@@ -263,7 +263,7 @@ def mutate_node(rng, l, T, tg):
         n = l[2] - l[1]
         mx = UMAX[l[3]] if l[3] in UMAX else 2 ** 32 - 1
         start = min(mx + 2 - n + rng.choice([0, 0, 1, 5]), 2 ** 64 - 1 - n) if n > 0 else mx + 5
-        start = max(min(start, 2 ** 64 - 1 - n), 0)
+        start = max(min(start, 2 ** 64 - 1 - max(n, 0)), 0)
         return ("range", start, start + n, l[3]), m
     if m == "range-wrong-tag":
         return ("range", l[1], l[2], rng.choice([t for t in UTY if t != l[3]])), m
